@@ -503,8 +503,12 @@ class ScriptRunner:
     # --- lifecycle hooks (every override logs itself; behaviour from the acts the event carried)
     def hook(self, name, default_body, arg):
         self.log("hook:%s" % name + ("" if arg is None else ",%d" % arg))
-        q = self.hook_acts.get(name)
-        act = q.pop(0) if q else dict(self.DEFAULT_ACT)
+        if name in self.now_acts:
+            # called from within the event that carries its behaviour
+            act = self.now_acts.pop(name)
+        else:
+            q = self.hook_acts.get(name)
+            act = q.pop(0) if q else dict(self.DEFAULT_ACT)
         r = None
         if act["dflt"] and default_body is not None:
             r = default_body()
@@ -520,26 +524,33 @@ class ScriptRunner:
     def bind_hooks(self, ev, acts):
         """queue the behaviours an event carries for the hooks it will (eventually) make the session call"""
         def put(name, i):
+            # a hook a continuation will call later (asyncio) or at once (Twisted): first in, first out
             if i < len(acts):
                 self.hook_acts.setdefault(name, []).append(acts[i])
+
+        def now(name, i):
+            # a hook this very event calls synchronously
+            if i < len(acts):
+                self.now_acts[name] = acts[i]
+        self.now_acts = {}
         joined = bool(self.sess._session_id)
         if ev == "open":
             put("onConnect", 0)
         elif ev == "closed":
             if joined:
-                put("onLeave", 0)
-            put("onDisconnect", 1)
+                now("onLeave", 0)
+            now("onDisconnect", 1)
         elif ev == "m.welcome" and not joined:
-            put("onWelcome", 0)
+            now("onWelcome", 0)
             a = acts[0] if acts else self.DEFAULT_ACT
             if not a["raises"] and a["spec"] in ("", "n") and self.sess._transport is not None:
                 put("onJoin", 1)
         elif ev == "m.abort" and not joined:
-            put("onLeave", 0)
+            now("onLeave", 0)
         elif ev == "m.goodbye" and joined:
-            put("onLeave", 0)
+            now("onLeave", 0)
         elif ev == "m.challenge" and not joined:
-            put("onChallenge", 0)
+            now("onChallenge", 0)
             a = acts[0] if acts else self.DEFAULT_ACT
             fails = a["raises"] or (a["spec"] in ("", "n") and self.fw != "twisted")
             if fails and self.sess._transport is not None:
@@ -810,6 +821,7 @@ class ScriptRunner:
         self.acts = []
         self.cur = []
         self.hook_acts = {}
+        self.now_acts = {}
         self.mapped = {}
         self.inv_futs = {}
         self.prog_fns = {}
@@ -873,6 +885,7 @@ class ScriptRunner:
                         self.log("caught:" + exc_name(e))
             else:
                 self.do_api(ev)
+            self.now_acts = {}
             # completions are observed by polling, after everything else of this event
             head_ = [x for x in self.cur if not x.startswith("done:")]
             self.cur = head_
